@@ -27,6 +27,7 @@ def showEv : Ev → String
   | .recvRet sid r => s!"recvRet:{sid}:{showRes r}"
   | .cbData sid d => s!"cb:{sid}:{toHex d}"
   | .modeRet sid b => s!"modeRet:{sid}:{bit b}"
+  | .closeCb sid => s!"gclose:{sid}"
 
 def joinEvs (l : List String) : String := if l.isEmpty then "-" else ";".intercalate l
 
@@ -57,7 +58,7 @@ def showState (s : State) (sid : Nat) : String :=
 def runSteps (cfg : Cfg) (s : State) (steps : List Step) : State × List Ev := run cfg s steps
 
 def cbEvs (evs : List Ev) : List String :=
-  evs.filterMap fun e => match e with | .cbData sid d => some s!"cb:{sid}:{toHex d}" | _ => none
+  evs.filterMap fun e => match e with | .cbData sid d => some s!"cb:{sid}:{toHex d}" | .closeCb sid => some s!"gclose:{sid}" | _ => none
 
 def parseMode (s : String) : Option Mode :=
   if s = "a" then some .async else if s = "s" then some .sync else if s = "d" then some .disabled else none
@@ -76,6 +77,7 @@ def parseStep : List String → Option Step
   | ["ioData", sid, hx] => do let sid ← sid.toNat?; let d ← ofHex hx; pure (.ioData sid d)
   | ["ioDeliver"] => some .ioDeliver
   | ["ioClose", sid] => do let sid ← sid.toNat?; pure (.ioClose sid)
+  | ["ioCloseCb", sid] => do let sid ← sid.toNat?; pure (.ioCloseCb sid)
   | ["recvEnter", sid, len] => do let sid ← sid.toNat?; let len ← len.toNat?; pure (.recvEnter sid len)
   | ["recvWake", sid, t] => do let sid ← sid.toNat?; let t ← parseBit t; pure (.recvWake sid t)
   | ["setMode", sid, m] => do let sid ← sid.toNat?; let m ← parseMode m; pure (.setMode sid m)
@@ -95,6 +97,7 @@ def parseWStep : List String → Option WStep
   | ["wCall", sid, len] => do let sid ← sid.toNat?; let len ← len.toNat?; pure (.wCall sid len)
   | ["wLoop", sid, e] => do let sid ← sid.toNat?; let e ← parseBit e; pure (.wLoop sid e)
   | ["cancel", sid] => do let sid ← sid.toNat?; pure (.cancel sid)
+  | ["reset", sid] => do let sid ← sid.toNat?; pure (.reset sid)
   | l => (parseStep l).map .base
 
 def step (st : St) : List String → St × String
@@ -112,9 +115,41 @@ def step (st : St) : List String → St × String
   | ["close", sid] =>
     match sid.toNat? with
     | some sid =>
-      let (w', _) := runBase st.cfg st.ws [.ioClose sid]
-      ({ st with ws := w' }, s!"gclose:{sid} | {showState w'.core sid}")
+      -- the close handler: the section that marks the session closed, THEN the global close callback (FC03c)
+      let (w', evs) := runBase st.cfg st.ws [.ioClose sid, .ioCloseCb sid]
+      ({ st with ws := w' }, s!"{joinEvs (cbEvs evs)} | {showState w'.core sid}")
     | none => (st, "bad-op")
+  | ["closew", sid, m] =>
+    -- the close handler with a close OBSERVER that lets an application thread call setReadMode(sid, m) and waits for it: the call
+    -- runs after the global close callback, inside the handler's callback phase - i.e. after the mark (FC03c)
+    match sid.toNat?, parseMode m with
+    | some sid, some m =>
+      let (w', e0) := runBase st.cfg st.ws [.ioClose sid, .ioCloseCb sid]
+      let (s1, e1) := Iora.SyncRecv.step st.cfg w'.core (.setMode sid m)
+      let (s2, evs) := flushAll st.cfg sid 8 s1 (e0 ++ e1)
+      let r := evs.filterMap fun e => match e with | .modeRet _ b => some s!"ret:{bit b}" | _ => none
+      ({ st with ws := { w' with core := s2 } }, s!"{joinEvs (cbEvs evs)} {joinEvs r} | {showState s2 sid}")
+    | _, _ => (st, "bad-op")
+  | ["creset", sid] =>
+    match sid.toNat? with
+    | some sid =>
+      let r := wstep st.cfg st.ws (.reset sid)
+      ({ st with ws := r.1 }, s!"ok | {showState r.1.core sid}")
+    | none => (st, "bad-op")
+  | ["recvcx", sid, len, _t, hx] =>
+    -- receiveSyncCancellable on a second thread; once its sub-call is parked (or the call has returned) the token is cancelled and THEN
+    -- the chunk is delivered: the sub-call is woken by the data and its bytes must be returned although the token is cancelled (C03-d)
+    match sid.toNat?, len.toNat?, ofHex hx with
+    | some sid, some len, some d =>
+      let r1 := runUntilRet st.cfg st.ws [.wCall sid len, .wLoop sid false, .base (.recvEnter sid len)] []
+      let r2 := runUntilRet st.cfg r1.1 [.cancel sid, .base (.ioData sid d), .base .ioDeliver] []
+      let returned := r1.2.any (fun e => match e with | .wrapRet _ _ => true | _ => false)
+      let r3 := if returned then (r2.1, ([] : List WEv))
+                else runUntilRet st.cfg r2.1 [.base (.recvWake sid false), .base (.recvWake sid true), .wLoop sid false] []
+      let all := r1.2 ++ r2.2 ++ r3.2
+      let res := all.filterMap fun e => match e with | .wrapRet _ x => some (showRes x) | _ => none
+      ({ st with ws := r3.1 }, s!"{joinEvs (res.take 1)} {joinEvs (cbEvs (coreEvs all))} | {showState r3.1.core sid}")
+    | _, _, _ => (st, "bad-op")
   | ["recv", sid, len, _t] =>
     match sid.toNat?, len.toNat? with
     | some sid, some len =>
